@@ -3,6 +3,7 @@ import JanetModel.Bytecode.VerifySound
 import JanetModel.Gen.VmAccess
 import JanetModel.Unmarsh.ImageWf
 import JanetModel.PegVerify.Sound
+import JanetModel.Unmarsh.BytesSound
 namespace JanetModel.Props.C10
 open JanetModel.Bytecode JanetModel.Gen.VmAccess
 
@@ -87,5 +88,54 @@ theorem peg_verify_sound_of_consistent (T : PegTables) (hT : T.consistent = true
     (hv : pegVerify T bc nc = true) :
     ∃ starts : List Nat, ∀ i, Reach T bc i → i ∈ starts ∧ i < bc.length ∧ InstrSafe T bc nc starts i :=
   reach_safe T hT bc nc hv
+
+/-! ### byte-level totality of unmarshal
+
+`unmarshal_total_inbounds` / `unmarshal_terminates` over the read sites of the CURRENT marsh.c are
+`JanetModel.Unmarsh.BytesObligations.{sites_ok, unmarshal_total_inbounds, unmarshal_terminates}` (built by the check on every
+run).  Here: the generic theorems, for ANY configuration whose extracted `MARSH_EOS` offsets dominate the reads, any
+`janet_verify` / PEG verifier, any abstract type table. -/
+open JanetModel.Unmarsh.Bytes in
+theorem unmarshal_total_inbounds_of_sites_ok (C : Cfg) (hS : C.sites.ok = true) (b : Array Nat) (fuel : Nat) :
+    match unmarshal C b fuel with
+    | .oob _ => False
+    | .ok _ c => 0 < c.pos ∧ c.pos ≤ b.size
+    | _ => True := unmarshal_total_inbounds_generic C hS b fuel
+
+open JanetModel.Unmarsh.Bytes in
+theorem unmarshal_terminates_of_sites_ok (C : Cfg) (hS : C.sites.ok = true) (b : Array Nat) (fuel : Nat)
+    (hf : fuelBound C ≤ fuel) : ∀ a, unmarshal C b fuel ≠ .fuel ∧ unmarshal C b fuel ≠ .oob a :=
+  unmarshal_terminates_generic C hS b fuel hf
+
+namespace BytesExamples
+open JanetModel.Unmarsh.Bytes
+
+def goodSites : Sites :=
+  { intLead := ⟨some 0, 0⟩, int2 := ⟨some 1, 1⟩, int5 := ⟨some 4, 4⟩, r64Lead := ⟨some 0, 0⟩, r64Multi := ⟨some 0, 0⟩,
+    envLead := ⟨some 0, 0⟩, u32 := ⟨some 3, 3⟩, defLead := ⟨some 0, 0⟩, oneLead := ⟨some 0, 0⟩, oneInt := ⟨some 4, 4⟩,
+    oneReal := ⟨some 8, 8⟩, oneBytes := ⟨some (-1), -1⟩, oneDos := ⟨some (-1), -1⟩, unsafePtr := ⟨some 8, -1⟩,
+    ptrBuf := ⟨some 8, -1⟩, unsafeCfun := ⟨some 8, -1⟩, thrAbs := ⟨some 8, -1⟩, ubyte := ⟨some 0, 0⟩,
+    ubytes := ⟨some (-1), -1⟩, ensure := ⟨some 0, -1⟩ }
+
+def mk (S : Sites) : Cfg :=
+  { sites := S, verify := fun _ => true, pegVerify := fun _ _ => true, pegSizeChecked := true, abstracts := [], jopCall := 53, threads := false }
+
+/-- non-vacuity: the hypothesis is satisfiable, and the model accepts / rejects / consumes as the C does on small images -/
+example : (mk goodSites).sites.ok = true := by decide
+example : (match unmarshal (mk goodSites) #[209, 3, 1, 129, 0, 201] 20 with | .ok .arr c => c.pos == 6 | _ => false) = true := by decide
+example : (match unmarshal (mk goodSites) #[209, 3, 1, 129] 20 with | .err .eos => true | _ => false) = true := by decide
+example : (match unmarshal (mk goodSites) #[206, 2, 104, 105, 7] 20 with | .ok .str c => c.pos == 4 | _ => false) = true := by decide
+
+/-- `readint` without `MARSH_EOS(st, data + 1)` in its two-byte branch -/
+def noInt2 : Sites := { goodSites with int2 := ⟨none, 1⟩ }
+end BytesExamples
+
+/-- a source that lacks one test: the obligation `Sites.ok` is false and the model itself exhibits the over-read input
+    (`0x81` = first byte of a two-byte integer, input ends there); checks/C10.py finds such inputs by running the model
+    with the extracted sites on every truncation of the base images and replays them under ASan -/
+theorem witness_missing_check_over_reads :
+    (BytesExamples.mk BytesExamples.noInt2).sites.ok = false ∧
+    (match JanetModel.Unmarsh.Bytes.unmarshal (BytesExamples.mk BytesExamples.noInt2) #[129] 20 with
+      | .oob 1 => true | _ => false) = true := by decide
 
 end JanetModel.Props.C10
